@@ -93,14 +93,14 @@ class Check:
                 json.dump({"property": self.pid, "key": key, "what": what, "seed": self.seed,
                            "tier": self.tier, "replay": replay}, f, indent=1, default=str)
         self.violations.append({"key": key, "what": what, "replay": path})
-        print("VIOLATION property=%s replay=%s  # %s" % (self.pid, path, what[:300]))
+        print("VIOLATION property=%s replay=%s  # %s" % (self.pid, path, " ".join(what.split())[:300]))
         sys.stdout.flush()
         return "new"
 
     # ---- finish
     def finish(self, exhaustive=False):
         for fid, h in sorted(self.kf_hits.items()):
-            print("KNOWN-FINDING: property=%s %s %s (x%d)" % (self.pid, fid, h["what"], h["count"]))
+            print("KNOWN-FINDING: property=%s %s %s (x%d)" % (self.pid, fid, " ".join(h["what"].split())[:400], h["count"]))
         cov = {
             "evaluations": int(self.evaluations),
             "distinct_nontrivial": len(self.distinct),
